@@ -747,9 +747,9 @@ func (db *DB) buildSetIdx(bucket string, r *Record) error {
 	}
 
 	if r.H.meta.Flag == DataDeleteFlag {
-		if err := db.SetIdx[bucket].SRem(string(r.E.Key), r.E.Value); err != nil {
-			return fmt.Errorf("when build SetIdx SRem index err: %s", err)
-		}
+		// Commit ignores the outcome of SRem (removing from a set that does not
+		// exist, ...); the rebuild must accept the same log.
+		_ = db.SetIdx[bucket].SRem(string(r.E.Key), r.E.Value)
 	}
 
 	return nil
@@ -810,32 +810,25 @@ func (db *DB) buildListIdx(bucket string, r *Record) error {
 		count, _ := strconv2.StrToInt(countAndValueIndex[0])
 		value := []byte(countAndValueIndex[1])
 
-		if _, err := db.ListIdx[bucket].LRem(string(r.E.Key), count, value); err != nil {
-			return ErrWhenBuildListIdx(err)
-		}
+		// Commit applies list records without looking at their outcome (a second
+		// pop of an emptied list, an LSet/LTrim/LRem that no longer applies, ...);
+		// the rebuild must accept every log that Commit produced.
+		_, _ = db.ListIdx[bucket].LRem(string(r.E.Key), count, value)
 	case DataLPopFlag:
-		if _, err := db.ListIdx[bucket].LPop(string(r.E.Key)); err != nil {
-			return ErrWhenBuildListIdx(err)
-		}
+		_, _ = db.ListIdx[bucket].LPop(string(r.E.Key))
 	case DataRPopFlag:
-		if _, err := db.ListIdx[bucket].RPop(string(r.E.Key)); err != nil {
-			return ErrWhenBuildListIdx(err)
-		}
+		_, _ = db.ListIdx[bucket].RPop(string(r.E.Key))
 	case DataLSetFlag:
 		keyAndIndex := strings.Split(string(r.E.Key), SeparatorForListKey)
 		newKey := keyAndIndex[0]
 		index, _ := strconv2.StrToInt(keyAndIndex[1])
-		if err := db.ListIdx[bucket].LSet(newKey, index, r.E.Value); err != nil {
-			return ErrWhenBuildListIdx(err)
-		}
+		_ = db.ListIdx[bucket].LSet(newKey, index, r.E.Value)
 	case DataLTrimFlag:
 		keyAndStartIndex := strings.Split(string(r.E.Key), SeparatorForListKey)
 		newKey := keyAndStartIndex[0]
 		start, _ := strconv2.StrToInt(keyAndStartIndex[1])
 		end, _ := strconv2.StrToInt(string(r.E.Value))
-		if err := db.ListIdx[bucket].Ltrim(newKey, start, end); err != nil {
-			return ErrWhenBuildListIdx(err)
-		}
+		_ = db.ListIdx[bucket].Ltrim(newKey, start, end)
 	}
 
 	return nil
